@@ -3,6 +3,7 @@ package c09
 import (
 	"encoding/json"
 	"fmt"
+	"math/big"
 	"strconv"
 	"strings"
 
@@ -24,7 +25,15 @@ type jtSnip struct {
 	fam   string // family (class of the case)
 	text  string // one member  "name":value  as raw bytes
 	valid bool   // the object it is added to stays an acceptable Struct
+	free  bool   // no verdict by construction (valid = what the implementation does)
 }
+
+// f64Over = 2^1024 - 2^970: the smallest magnitude that rounds to +Inf;
+// f64Under5 = 5^1075: f64Under5 * 10^-1075 = 2^-1075, the largest magnitude that rounds to 0.
+var f64Over = new(big.Int).Sub(new(big.Int).Lsh(big.NewInt(1), 1024), new(big.Int).Lsh(big.NewInt(1), 970))
+var f64Under5 = new(big.Int).Exp(big.NewInt(5), big.NewInt(1075), nil)
+
+func bigPlus(x *big.Int, d int64) string { return new(big.Int).Add(x, big.NewInt(d)).String() }
 
 type jtWhole struct {
 	fam   string
@@ -50,7 +59,7 @@ func jtSnips() []jtSnip {
 	var s []jtSnip
 	add := func(fam string, valid bool, texts ...string) {
 		for _, t := range texts {
-			s = append(s, jtSnip{fam, t, valid})
+			s = append(s, jtSnip{fam, t, valid, false})
 		}
 	}
 	// duplicate member names below the top level
@@ -77,18 +86,45 @@ func jtSnips() []jtSnip {
 		add("control-raw", false, `"x":"a`+string([]byte{c})+`b"`)
 	}
 	add("control-raw", false, "\"x\x01\":1", "\"x\":[\"\t\"]")
-	// numbers
-	add("number-ok", true, `"x":0`, `"x":-0`, `"x":1e5`, `"x":1E+5`, `"x":1e-5`, `"x":0e0`, `"x":0.0`, `"x":1.0`, `"x":1.5e3`, `"x":1e-400`, `"x":-1e-400`,
-		`"x":9007199254740991`, `"x":9007199254740992`, `"x":9007199254740993`, `"x":-9007199254740991`, `"x":-9007199254740992`, `"x":-9007199254740993`,
-		`"x":123456789012345678901234567890`, `"x":1e308`, `"x":-1e308`, `"x":1.7976931348623157e308`, `"x":4.9e-324`, `"x":2.5e-324`, `"x":0.1`, `"x":1700000000`,
-		`"x":-9223372036854775808`, `"x":9223372036854775807`, `"x":9223372036854775808`, `"x":1e0001`, `"x":1e-0`, `"x":100e-2`, `"x":0.1e1`, `"x":10000000000000000`,
-		`"x":1e1`, `"x":[0,-0,0.0,-0.0,0e5,-0e-5]`, `"x":0.`+strings.Repeat("0", 300)+`1`, `"x":1`+strings.Repeat("0", 300)+`e-300`, `"x":0.30000000000000004`,
-		`"x":1.0000000000000002`, `"x":0.1000000000000000055511151231257827`, `"x":9007199254740992.5`, `"x":4503599627370496.5`, `"x":1e22`, `"x":1e23`)
-	add("number-bad", false, `"x":01`, `"x":+1`, `"x":1.`, `"x":.5`, `"x":1e`, `"x":1e+`, `"x":1e-`, `"x":--1`, `"x":-`, `"x":00`, `"x":-01`, `"x":0.`, `"x":0x10`, `"x":1_0`,
-		`"x":NaN`, `"x":Infinity`, `"x":-Infinity`, `"x":nan`, `"x":inf`, `"x":1e5x`, `"x":1.5.5`, `"x":1ee5`, `"x":0e`, `"x":1E`, `"x":1.e5`, `"x":-.5`, `"x":1e+-5`, `"x":1e5.5`,
-		`"x":`+"\xd9\xa1", `"x":1 0`, `"x":- 1`, `"x":1e 5`, `"x":0b1`, `"x":1f`, `"x":1d`, `"x":0.5.`, `"x":[1e+]`, `"x":[1e,2]`, `"x":2-1`, `"x":1+1`)
-	add("number-range", false, `"x":1e400`, `"x":-1e400`, `"x":1.8e308`, `"x":1.7976931348623159e308`, `"x":1e309`, `"x":1`+strings.Repeat("0", 400), `"x":-1`+strings.Repeat("0", 309),
-		`"x":[1,1e999999999]`, `"x":0.1e310`)
+	// numbers.  Families whose name contains "numx": EVERY literal is decided by the
+	// model itself (coq/model/Json.v lit_class: the value is an integer below 2^53
+	// in whatever spelling, is zero, rounds to zero, or is out of the float64
+	// range); the OCaml handler fails if the float oracle is consulted on such a
+	// case.  The other number families reach the oracle (strconv.ParseFloat).
+	add("numx-int", true, `"x":1700003600.0`, `"x":17000036e2`, `"x":1.7000036e9`, `"x":1.7000036E+9`, `"x":170000360000e-2`, `"x":0.00000017000036e16`,
+		`"x":1e5`, `"x":1E+5`, `"x":1e3`, `"x":100e-2`, `"x":-12.50e1`, `"x":1E0`, `"x":1e+0`, `"x":1.0`, `"x":1.5e3`, `"x":1e0001`, `"x":1e-0`, `"x":0.1e1`, `"x":1e1`, `"x":1e15`,
+		`"x":100000e-5`, `"x":9007199254740991`, `"x":-9007199254740991`, `"x":9007199254740991.0`, `"x":900719925474099.1e1`, `"x":-9007199254740991e0`, `"x":9007199254740.991e3`,
+		`"x":9.007199254740991e15`, `"x":-0.9007199254740991E+16`, `"x":1700000000`, `"x":1`+strings.Repeat("0", 300)+`e-300`, `"x":0.`+strings.Repeat("0", 300)+`1e301`,
+		`"x":123456789.000000000000000000000000000000`, `"x":[1.0,2.00,3e0,4E+0,5e-0,-6.0e0]`, `"x":1`+strings.Repeat("0", 799)+`e-799`, `"x":4503599627370496.0`)
+	add("numx-zero", true, `"x":0`, `"x":-0`, `"x":0.0`, `"x":-0.0`, `"x":0e0`, `"x":0e99999999999999999999`, `"x":-0e-5`, `"x":0.000e+7`, `"x":1e-400`, `"x":-1e-400`, `"x":2.4e-324`,
+		`"x":1e-99999999999999999999`, `"x":-123e-99999999999999999999`, `"x":0.`+strings.Repeat("0", 400)+`1`, `"x":[0,-0,0.0,-0.0,0e5,-0e-5]`,
+		// 2^-1075 exactly (a tie: rounds to the even mantissa 0) and just below
+		`"x":`+f64Under5.String()+`e-1075`, `"x":-`+bigPlus(f64Under5, -1)+`e-1075`, `"x":0.`+strings.Repeat("0", 323)+f64Under5.String(),
+		`"x":0.`+strings.Repeat("0", 323)+bigPlus(f64Under5, -1)+strings.Repeat("9", 200))
+	add("numx-range", false, `"x":1e400`, `"x":-1e400`, `"x":1.8e308`, `"x":1.7976931348623159e308`, `"x":1e309`, `"x":1`+strings.Repeat("0", 400), `"x":-1`+strings.Repeat("0", 309),
+		`"x":[1,1e999999999]`, `"x":0.1e310`, `"x":1e99999999999999999999`, `"x":-5E+401`, `"x":17976931348623159`+strings.Repeat("0", 292)+`.5`,
+		// 2^1024 - 2^970 exactly (a tie: rounds to the even mantissa 2^53, i.e. to infinity) and just above
+		`"x":`+f64Over.String(), `"x":-`+f64Over.String()+`.0`, `"x":`+f64Over.String()+`e0`, `"x":`+bigPlus(f64Over, 1), `"x":`+f64Over.String()+`.`+strings.Repeat("0", 900)+`1`,
+		`"x":`+f64Over.String()+`0e-1`, `"x":0.`+f64Over.String()+`e309`)
+	add("number-ok", true, `"x":1e-5`,
+		`"x":9007199254740992`, `"x":9007199254740993`, `"x":-9007199254740992`, `"x":-9007199254740993`,
+		`"x":123456789012345678901234567890`, `"x":1e308`, `"x":-1e308`, `"x":1.7976931348623157e308`, `"x":4.9e-324`, `"x":2.5e-324`, `"x":0.1`,
+		`"x":-9223372036854775808`, `"x":9223372036854775807`, `"x":9223372036854775808`, `"x":10000000000000000`,
+		`"x":0.`+strings.Repeat("0", 300)+`1`, `"x":0.30000000000000004`,
+		`"x":1.0000000000000002`, `"x":0.1000000000000000055511151231257827`, `"x":9007199254740992.5`, `"x":4503599627370496.5`, `"x":1e22`, `"x":1e23`, `"x":1.5`, `"x":-2.5e-1`,
+		// the neighbours of the two float64 boundaries that are NOT decided by the model
+		`"x":1.7976931348623158e308`, `"x":`+bigPlus(f64Over, -1), `"x":`+bigPlus(f64Over, -1)+`.`+strings.Repeat("9", 900), `"x":`+bigPlus(f64Under5, 1)+`e-1075`,
+		`"x":0.`+strings.Repeat("0", 323)+f64Under5.String()+strings.Repeat("0", 200)+`1`, `"x":9007199254740991.5`, `"x":900719925474099.15e1`,
+		`"x":17976931348623158`+strings.Repeat("0", 292)+`.5`)
+	// an integer part of more than 800 digits: strconv.ParseFloat (go1.23) drops the
+	// excess digits of its 800-digit buffer WITHOUT moving the decimal point when its
+	// fast paths do not apply, so the first is read as 1.7000036e-100 instead of
+	// 1700003600.00..01 and the second (true value 2e309, out of range) as 2e209.
+	// The model leaves these literals to the oracle, i.e. follows strconv.
+	for _, t := range []string{`"x":17000036` + strings.Repeat("0", 900) + `1e-899`, `"x":2` + strings.Repeat("0", 898) + `1e-590`, `"x":1` + strings.Repeat("0", 900),
+		`"x":1` + strings.Repeat("0", 800) + `e-800`, `"x":3` + strings.Repeat("0", 800) + `e-1124`, `"x":9007199254740993` + strings.Repeat("0", 900) + `1e-901`} {
+		s = append(s, jtSnip{"number-long-int", t, true, true})
+	}
 	// null and the literals
 	add("null-literal", true, `"x":null`, `"x":[null,[null],{"n":null}]`, `"x":true`, `"x":false`, `"x":[true,false,null]`, `"null":null`, `"true":false`)
 	add("literal-bad", false, `"x":nul`, `"x":nulll`, `"x":NULL`, `"x":Null`, `"x":True`, `"x":tru`, `"x":truefalse`, `"x":true1`, `"x":false_`, `"x":nu ll`, `"x":n`, `"x":none`, `"x":undefined`,
@@ -256,7 +292,11 @@ func (g *G) jtSnipCase(d kd, mac bool, where byte, sn jtSnip, levels int, spaced
 	} else {
 		pl = insertAt(pl, g.r.Intn(len(pl)+1), m)
 	}
-	return g.jtLine(d, mac, where, fam, g.jtRender(hdr, spaced && where == 'h'), g.jtRender(pl, spaced && where == 'p'), expectTag(sn.valid))
+	expect := expectTag(sn.valid)
+	if sn.free {
+		expect = ""
+	}
+	return g.jtLine(d, mac, where, fam, g.jtRender(hdr, spaced && where == 'h'), g.jtRender(pl, spaced && where == 'p'), expect)
 }
 
 // jtClaimCases: manipulations of the registered members themselves.
@@ -365,17 +405,29 @@ func jtClaims() []jtClaim {
 		v := v
 		c = append(c, jtClaim{"container-claim", 'p', func(h, p []string, d kd) ([]string, []string) { return h, setM(p, "aud", v) }, ":R"})
 	}
-	// number spellings of a timestamp (the claim rules decide)
-	for _, v := range []string{"1700003600.0", "17000036e2", "1.7000036e9", "1700003600.9", "1700003600e0", "1.7000036E+9", "170000360000e-2", "-0", "0.0", "1e-400", "253402300799", "253402300799.9", "253402300800", "2534023008e2", "1e30", "9007199254740993", "-1e-7"} {
+	// number spellings of a timestamp (the claim rules decide).  numx-claim: the
+	// value is an integer below 2^53 / zero / an underflow, decided by the model
+	// in every spelling (the float oracle must not be consulted); number-claim:
+	// not an integer, or from 2^53 up: the oracle's answer decides the verdict
+	for _, v := range []string{"1700003600.0", "17000036e2", "1.7000036e9", "1700003600e0", "1.7000036E+9", "170000360000e-2", "0.17000036E10", "-0", "0.0", "1e-400", "253402300799",
+		"253402300800", "2534023008e2", "253402300799.0", "2534023007.99e2", "25340230080e1", "1699999999.0", "17e8", "1.7e9", "1700000001e0", "9007199254740991.0"} {
+		v := v
+		for _, name := range []string{"exp", "nbf", "iat"} {
+			name := name
+			c = append(c, jtClaim{"numx-claim", 'p', func(h, p []string, d kd) ([]string, []string) { return h, setM(p, name, v) }, ""})
+		}
+	}
+	for _, v := range []string{"1700003600.9", "1700003600.5", "253402300799.9", "1e30", "9007199254740993", "-1e-7", "1699999999.999999999", "1.7000000005e9", "0.5"} {
 		v := v
 		for _, name := range []string{"exp", "nbf", "iat"} {
 			name := name
 			c = append(c, jtClaim{"number-claim", 'p', func(h, p []string, d kd) ([]string, []string) { return h, setM(p, name, v) }, ""})
 		}
 	}
-	for _, v := range []string{"01700003600", "+1700003600", "1700003600.", "1e400", "NaN", "Infinity", "0x6553F100", "1_700_003_600", "1700003600e", "17000036e+"} {
+	// refused without the oracle: syntax, or out of the float64 range
+	for _, v := range []string{"01700003600", "+1700003600", "1700003600.", "1e400", "NaN", "Infinity", "0x6553F100", "1_700_003_600", "1700003600e", "17000036e+", "17e999999999", "-1.8e308"} {
 		v := v
-		c = append(c, jtClaim{"number-claim-bad", 'p', func(h, p []string, d kd) ([]string, []string) { return h, setM(p, "exp", v) }, ":R"})
+		c = append(c, jtClaim{"numx-claim-bad", 'p', func(h, p []string, d kd) ([]string, []string) { return h, setM(p, "exp", v) }, ":R"})
 	}
 	return c
 }
@@ -466,7 +518,7 @@ func (g *G) jtJWK(d kd, where byte, sn jtSnip, spaced bool) string {
 		text = `{"keys":[` + key + `],` + ws() + sn.text + ws() + `}`
 	}
 	expect := ""
-	if !sn.valid {
+	if !sn.valid && !sn.free {
 		expect = ":R"
 	}
 	// the recursion budget is counted from the top of the text: two levels deeper inside a key object
@@ -530,7 +582,7 @@ func (g *G) jsonTextCase() string {
 		n := 0
 		for n < 2 {
 			sn := light()
-			if !sn.valid || !strings.HasPrefix(sn.text, `"x":`) {
+			if !sn.valid || sn.free || !strings.HasPrefix(sn.text, `"x":`) {
 				continue
 			}
 			m := `"x` + strconv.Itoa(n) + sn.text[2:]
